@@ -14,6 +14,9 @@
            A ::= (i k) | (n z) | (ar add|sub|mul A A) | (un neg|pos A) | (glob g)
                | (byte j)      the j-th byte-sized local (bool locals so far: `(q is byte) is int`) read as an int
                | (low i)       the low byte of the i-th int local read as an int: `(x is byte) is int`
+               | (c z)         a char literal used as an int (printed 'c'), 0 <= z <= 255
+               | (trunc A)     `(A is byte) is int` for A a global or a computed value (not at the root of a
+                               declaration initialiser / call or write argument)
            globals: (glob g) reads the g-th int global, (bglob h) the h-th bool global;
                S ::= ... | (assg g A) | (assgdiv g div|mod A A) | (call assigng g <f> A ...) | (assbg h E)
                `prog` and `run` lines take (ginit z ...) (binit 0|1 ...) before the functions: the
@@ -100,7 +103,9 @@ let rec opd_of = function
   | L [Atom "glob"; Atom k] -> OGlob (nat_of_int (int_of_string k))
   | L [Atom "byte"; Atom j] -> OByte (YSlot (nat_of_int (int_of_string j)))
   | L [Atom "low"; Atom i] -> OByte (YLow (nat_of_int (int_of_string i)))
-  | L [Atom "n"; Atom z] -> OLit (z_of_string z)
+  | L [Atom "trunc"; x] -> OTrunc (opd_of x)
+  | L [Atom "n"; Atom z] -> OLit (false, z_of_string z)
+  | L [Atom "c"; Atom z] -> OLit (true, z_of_string z)
   | L [Atom "ar"; Atom op; x; y] -> OArith (aop_of op, opd_of x, opd_of y)
   | L [Atom "un"; Atom "neg"; x] -> OUn (UNeg, opd_of x)
   | L [Atom "un"; Atom "pos"; x] -> OUn (UPos, opd_of x)
